@@ -31,6 +31,7 @@ import (
 )
 
 type Clause struct {
+	Using []string // names of the hypotheses (clauses) to use when proving this clause
 	Name  string
 	Text  string // original text
 	Expr  ast.Expr
@@ -101,6 +102,8 @@ type ContractSet struct {
 	Defines map[string]*Define   // key: pkgpath + "::" + name
 	Axioms  []*Axiom
 	NonNil  [][2]string // (package, type expression)
+	NonNilFields [][3]string // (package, T.f, kind)
+	NonNilBoxed  [][2]string
 	Errors  []string
 }
 
@@ -331,10 +334,14 @@ func (cs *ContractSet) parseFile(fset *token.FileSet, f *ast.File, pkgPath, file
 						rest = strings.TrimSpace(rest[i+1:])
 					}
 				}
-				var props []string
-				// trailing "@props C01,C02"
+				var props, using []string
+				// trailing "@using a,b" and "@props C01,C02" (in this order)
 				if i := strings.LastIndex(rest, "@props "); i >= 0 {
 					props = strings.FieldsFunc(rest[i+7:], func(r rune) bool { return r == ',' || r == ' ' })
+					rest = strings.TrimSpace(rest[:i])
+				}
+				if i := strings.LastIndex(rest, "@using "); i >= 0 {
+					using = strings.FieldsFunc(rest[i+7:], func(r rune) bool { return r == ',' || r == ' ' })
 					rest = strings.TrimSpace(rest[:i])
 				}
 				e, err := parseSpecExpr(rest)
@@ -342,7 +349,7 @@ func (cs *ContractSet) parseFile(fset *token.FileSet, f *ast.File, pkgPath, file
 					errf(l.line, "%v", err)
 					return nil
 				}
-				return &Clause{Name: name, Text: rest, Expr: e, Line: l.line, File: fileName, Props: props}
+				return &Clause{Name: name, Text: rest, Expr: e, Line: l.line, File: fileName, Props: props, Using: using}
 			}
 			switch word {
 			case "func":
@@ -368,6 +375,14 @@ func (cs *ContractSet) parseFile(fset *token.FileSet, f *ast.File, pkgPath, file
 			case "nonnil-elems":
 				// element type invariant: slices of this pointer type never hold nil in bounds
 				cs.NonNil = append(cs.NonNil, [2]string{pkgPath, strings.TrimSpace(rest)})
+			case "assume-nonnil-boxed":
+				// data assumption: interface values never hold a nil value of this (map/pointer) type
+				cs.NonNilBoxed = append(cs.NonNilBoxed, [2]string{pkgPath, strings.TrimSpace(rest)})
+			case "assume-nonnil-elems":
+				cs.NonNil = append(cs.NonNil, [2]string{pkgPath, strings.TrimSpace(rest)})
+			case "nonnil-field", "assume-nonnil-field":
+				// field invariant: T.f is never nil (checked at stores and allocations unless assumed)
+				cs.NonNilFields = append(cs.NonNilFields, [3]string{pkgPath, strings.TrimSpace(rest), word})
 			case "axiom", "lemma":
 				i := strings.Index(rest, ":")
 				if i < 0 {
